@@ -16,7 +16,7 @@ import (
 func init() {
 	register(&propDef{
 		id:      "C25",
-		explain: "Structural necessary conditions of 'every file the FS handler opens is closed exactly once and never while a response still reads it': (E1-file) typestate of fs.File / *os.File values in fs.go: a file obtained from an open call, or received by a function that takes ownership of it, is on every path closed, stored into an owning object, returned, or passed to a function that takes ownership - exactly once; functions that receive a file either always or never dispose of it (no mixed contracts); a failed open disposes of nothing; (E1-readers) in the request handler the reader count taken when the file is fetched from / put into the cache is given back exactly once on every path: decReadersCount, closing the reader, or handing the reader to the response as its body stream; (R-rmw) a tracking list (pendingFiles, bigFiles) that is read, filtered and written back is not written by a callee between the read and the write-back - otherwise entries appended in between are lost and their files never released; (R-closed) every insertion into a map of cached files is made by the cache manager on a branch on which its closed flag was found false (after close nothing cleans the maps, and a file is released with its last reader); (E8) cache maps, pendingFiles, closed and readersCount are accessed only under cacheLock, bigFiles only under bigFilesLock. (R-count) every append that builds a list of cached files (to release, or pending) in the cache manager is control-dependent on a comparison of that file's readersCount; Not decided: eviction/reader interleavings, OS-level descriptor state.",
+		explain: "Structural necessary conditions of 'every file the FS handler opens is closed exactly once and never while a response still reads it': (E1-file) typestate of fs.File / *os.File values in fs.go: a file obtained from an open call, or received by a function that takes ownership of it, is on every path closed, stored into an owning object, returned, or passed to a function that takes ownership - exactly once; functions that receive a file either always or never dispose of it (no mixed contracts); a failed open disposes of nothing; (E1-readers) in the request handler the reader count taken when the file is fetched from / put into the cache is given back exactly once on every path: decReadersCount, closing the reader, or handing the reader to the response as its body stream; (R-rmw) a tracking list (pendingFiles, bigFiles) that is read, filtered and written back is not written by a callee between the read and the write-back - otherwise entries appended in between are lost and their files never released; (R-closed) every insertion into a map of cached files is made by the cache manager on a branch on which its closed flag was found false (after close nothing cleans the maps, and a file is released with its last reader); (E8) cache maps, pendingFiles, closed and readersCount are accessed only under cacheLock, bigFiles only under bigFilesLock. (R-count) every append that builds a list of cached files (to release, or pending) in the cache manager is control-dependent on a comparison of that file's readersCount; (R-atomic) the closed flag is raised in the critical section that empties the cache maps: from the store of true no Unlock or return is reachable without the sweep (collectAllFilesToReleaseNolock) - otherwise a reader finishing in between releases a file the sweep releases again. Not decided: eviction/reader interleavings, OS-level descriptor state.",
 		run:     runC25,
 	})
 }
